@@ -229,8 +229,9 @@ def specials(dtype):
     lo, hi = limits(dtype)
     if is_float(dtype):
         fi = np.finfo(np.dtype(dtype))
+        t = np.dtype(dtype).type
         return [math.inf, -math.inf, 0.0, -0.0, float(fi.tiny), -float(fi.tiny), float(fi.smallest_subnormal),
-                hi, lo, hi / 2, 1e30, -1e30]
+                hi, lo, float(t(hi / 2)), float(t(1e30)), float(t(-1e30))]
     return [v for v in (lo, lo + 1, -1, 0, 1, hi - 1, hi) if lo <= v <= hi and abs(v) <= EXACT_LIMIT]
 
 
